@@ -107,3 +107,27 @@ Theorem C13_inverts : forall (prods : list product) (G : product -> nat -> C) t 
             (factor prods t c cp) = stored.
 Proof. exact inverts. Qed.
 Print Assumptions C13_inverts.
+
+(* Which subset is LOADED (katdal.open(..., preselect={'dumps': slice(t0, t0+T'), 'channels': slice(a, a+n)})):
+   the factor computed by a data set holding only that part of the stream, at its dump t and channel c, is the
+   factor the fully opened data set computes at dump t0 + t and channel a + c.
+   _partial: the guard is built into the statement — the correction vectors of the loaded data set are
+   `loaded_raw` of those of the whole one: the same vectors from dump t0 on, cut to the loaded channels for
+   products given on the data channels (K, B; data channels distinct), unchanged for products on their own
+   channelisation (product_ok for both channel lists).  calc_correction is handed the LOADED data frequencies
+   (sub a n data): with the stream's frequencies instead (seeded change C13-4) the statement is false.
+   The guard holds for K/B (solution in force, evaluated pointwise in frequency) but NOT for time-interpolated
+   gains whose solutions fall outside the loaded dumps: C13_subset_loaded_refuted (finding C13-F3). *)
+Theorem C13_subset_loaded_partial : forall data (rs : list (rawproduct * bool)) t0 a n t c cp,
+  Forall (loaded_ok data t0 a n) rs -> (c < List.length (sub a n data))%nat ->
+  factor (make_products (sub a n data) (map (fun rb => loaded_raw (snd rb) t0 a n (fst rb)) rs)) t c cp
+  = factor (make_products data (map fst rs)) (t0 + t)%nat (a + c)%nat cp.
+Proof. exact subset_loaded. Qed.
+Print Assumptions C13_subset_loaded_partial.
+
+(* A gain solution that is valid for an input and lies before (or after) the loaded dumps is not seen by the
+   preselected data set: the input's correction is a number in the fully opened data set and NaN in the loaded one. *)
+Theorem C13_subset_loaded_refuted : exists (evs : list (Z * bool)) (T a b : Z),
+  (0 <= a < b)%Z /\ (b <= T)%Z /\ gain_has_valid 0 T evs = true /\ gain_has_valid a b evs = false.
+Proof. exact subset_loaded_refuted. Qed.
+Print Assumptions C13_subset_loaded_refuted.
